@@ -109,14 +109,15 @@ CHECKS = {
         category="other",
         text="SMT (z3; cvc5 cross-check in the thorough tier) over the terms the real arrow re-encoding functions compute when called with an "
         "operator-overloading pyarrow shim: for every microsecond timestamp of 0001..9999 (pre-1970 included, with/without UTC zone) and "
-        "every TIME value the safe casts cannot fail and epoch*1e9+fraction / nanoseconds are exact; metadata strings per rowtype.  "
+        "every TIME value the safe casts cannot fail and epoch*1e9+fraction / nanoseconds are exact; NULL-ness is a symbolic flag of every element "
+        "(a NULL value is a NULL on the wire for every column kind, incl. the timestamp structs); metadata strings per rowtype.  "
         "CrossHair over the real request handlers (token lookup, response assembly vs. the in-process cursor).",
         design_ref="3 C17",
         technique="symbolic execution by operator overloading of the real functions into z3 terms (QF_BVFP+LIA), SMT query per property; CrossHair for handlers; replay on real pyarrow",
     ),
     "C12": dict(
         category="translation_validation",
-        text="Translation validation by SMT: for ~77 MERGE shapes the statements the real pipeline hands to DuckDB are captured at the engine "
+        text="Translation validation by SMT: for ~100 MERGE shapes (targets in the session's schema and in another schema with a same-named bystander) the statements the real pipeline hands to DuckDB are captured at the engine "
         "boundary and symbolically executed (bounded symbolic SQL evaluator over z3: symbolic row presence, NULL flags and integer cells, "
         "three-valued logic, FULL OUTER JOIN, UPDATE..FROM, DELETE..USING, COUNT_IF) and compared with a direct encoding of Snowflake's "
         "MERGE semantics: final target bag, the three counts, source untouched; one query per shape over all contents within the row bounds.",
